@@ -114,6 +114,9 @@ type wdSlot struct {
 func NewCheck(t *testing.T, id string, rule string) *Check {
 	c := &Check{t: t, id: id, rec: ev.New(id, tier, seed, verifDir), oracle: registry[id], hangSec: 60}
 	c.rec.Rule = rule
+	if id == "C09" || id == "C05" {
+		c.hangSec = 900 // long-running cases by design (timing families, child processes)
+	}
 	if c.oracle == nil {
 		t.Fatalf("no oracle registered for %s", id)
 	}
